@@ -498,9 +498,216 @@ def observe_ufunc(c):
     return {"raise": False, "exc": "", "kind": kd, "size": sz, "py": py, "warnR": wr, "warnU": wu, "els": els}
 
 
+
+# ----------------------------------------------------------------- combining data elsewhere (comb family)
+def _x_close(a, b):
+    """np.isclose with default tolerances on exact values."""
+    if "nan" in (a, b):
+        return False
+    if not isinstance(a, Fraction) or not isinstance(b, Fraction):
+        return a == b
+    return abs(a - b) <= Fraction(1, 10**8) + Fraction(1, 10**5) * abs(b)
+
+
+def _binop(op, p, q):
+    if op == "add":
+        return (x_add(p[0], q[0]), x_add(p[1], q[1]))
+    if op == "subtract":
+        return (x_add(p[0], x_neg(q[0])), x_add(p[1], x_neg(q[1])))
+    if op == "maximum":
+        return (x_max(p[0], q[0]), Fraction(0))
+    if op == "minimum":
+        return (x_min(p[0], q[0]), Fraction(0))
+    raise ValueError(op)
+
+
+def _cmpop(op, p, q):
+    if op == "less":
+        return x_lt(p[0], q[0])
+    if op == "greater":
+        return x_lt(q[0], p[0])
+    if op == "less_equal":
+        return not x_lt(q[0], p[0]) and "nan" not in (p[0], q[0])
+    if op == "greater_equal":
+        return not x_lt(p[0], q[0]) and "nan" not in (p[0], q[0])
+    eq = p[0] == q[0] and p[1] == q[1] and "nan" not in (p[0], q[0], p[1], q[1])
+    return eq if op == "equal" else not eq
+
+
+def _mul(v, f):
+    return tuple(x * f if isinstance(x, Fraction) else x for x in v)
+
+
+def _rnd2(v, cs):
+    return (rnd(v[0], cs), rnd(v[1], cs))
+
+
+def _fcomp(d):
+    """component size of d once it is held as a float by NumPy promotion."""
+    if kind(d) in "iu":
+        return {1: 2, 2: 4}.get(size(d), 8)
+    return comp(d)
+
+
+def observe_comb(c):
+    np = _U["np"]
+    form, op, da, de = c["form"], c["op"], c["d0"], c["d1"]
+    uf, us, ua = c["uf"], c["us"], c["ua"]
+    eu = (us, us) if form in ("setitem_arr", "isclose", "allclose", "clip", "where", "concatenate", "stack", "append", "insert") else (uf, us)
+    base_e = "s3" if kind(de) in "iu" else ("h" if kind(de) == "f" else "z")
+    base_a = "s3" if kind(da) in "iu" else ("h" if kind(da) == "f" else "z")
+    vb = [value_of(de, base_e), value_of(de, c["vc1"])]
+    # the listed / assigned / compared elements, exactly, in a unit
+    def b_in(j, to):
+        return _mul(vb[j], SCALE[eu[j]] / SCALE[to])
+    va = []
+    for j, cls in enumerate(c["va"]):
+        if cls == "tr":
+            va.append((Fraction(math.floor(b_in(j, ua)[0])), Fraction(0)))
+        else:
+            va.append(value_of(da, base_a))
+    reg = _U["reg"]
+    mk_q = lambda d, v, u: _U["uq"](make_array(d, [v])[0], UNITS[u], registry=reg)  # noqa: E731
+    mk_a = lambda d, vs, u: _U["ua"](make_array(d, vs), UNITS[u], registry=reg)  # noqa: E731
+    a = mk_a(da, va, ua)
+    q = [mk_q(de, vb[0], eu[0]), mk_q(de, vb[1], eu[1])]
+    if form == "ctor_list":
+        call = lambda: _U["ua"](q, registry=reg)  # noqa: E731
+    elif form == "ctor_tuple":
+        call = lambda: _U["ua"](tuple(q), registry=reg)  # noqa: E731
+    elif form == "ctor_arrays":
+        call = lambda: _U["ua"]([mk_a(de, [vb[0]], eu[0]), mk_a(de, [vb[1]], eu[1])], registry=reg)  # noqa: E731
+    elif form == "ufunc_rlist":
+        call = lambda: getattr(np, op)(a, q)  # noqa: E731
+    elif form == "ufunc_llist":
+        call = lambda: getattr(np, op)(q, a)  # noqa: E731
+    elif form == "setitem_q":
+        def call():
+            a[1] = q[1]
+            return a
+    elif form == "setitem_list":
+        def call():
+            a[0:2] = q
+            return a
+    elif form == "setitem_arr":
+        def call():
+            a[:] = mk_a(de, vb, us)
+            return a
+    elif form == "isclose":
+        call = lambda: np.isclose(a, mk_a(de, vb, us))  # noqa: E731
+    elif form == "allclose":
+        call = lambda: np.allclose(a, mk_a(de, vb, us))  # noqa: E731
+    elif form == "clip":
+        call = lambda: np.clip(a, q[0], q[1])  # noqa: E731
+    elif form == "where":
+        call = lambda: np.where([True, False], a, mk_a(de, vb, us))  # noqa: E731
+    elif form == "concatenate":
+        call = lambda: np.concatenate([a, mk_a(de, vb, us)])  # noqa: E731
+    elif form == "stack":
+        call = lambda: np.stack([a, mk_a(de, vb, us)])  # noqa: E731
+    elif form == "append":
+        call = lambda: np.append(a, mk_a(de, vb, us))  # noqa: E731
+    elif form == "insert":
+        call = lambda: np.insert(a, 0, q[1])  # noqa: E731
+    else:
+        raise ValueError(form)
+    r, exc, wr, wu = run(call)
+    if exc:
+        return {"raise": True, "exc": exc, "kind": "", "size": 0, "py": False, "warnR": wr, "warnU": wu, "els": []}
+    kd, sz, py = dtype_of(r)
+    obs = [exact_c(e) for e in elements(r)]
+    cs_r = sz // 2 if kd == "c" else sz
+    cs_e = comp(de)
+    els = []
+    if form in ("clip", "where", "concatenate", "stack", "append", "insert"):
+        # a function that refuses mixed units returned: every element must be an exactly converted input
+        ru = str(getattr(r, "units", ""))
+        rsc = {v: SCALE[k] for k, v in UNITS.items()}.get(ru)
+        for ob in obs:
+            e = elem_record(ob)
+            if rsc is not None and kd in "fc" and cs_r in FMT:
+                cands = [_mul(va[j], SCALE[ua] / rsc) for j in range(2)] + [_mul(vb[j], SCALE[us] / rsc) for j in range(2)]
+                e["mS"] = any(match(ob, x, cs_r, kd == "c") for x in cands)
+                # ... possibly rounded to the float type of its own data first
+                e["mP"] = any(match(ob, _rnd2(x, cs0), cs_r, kd == "c") for x in cands for cs0 in (comp(da), comp(de)))
+            els.append(e)
+        return {"raise": False, "exc": "", "kind": kd, "size": sz, "py": py, "warnR": wr, "warnU": wu, "els": els}
+    # stage 1 of the list forms: every element converted to the first unit, rounded to the elements' float type
+    listy = form in ("ctor_list", "ctor_tuple", "ctor_arrays", "ufunc_rlist", "ufunc_llist", "setitem_list")
+    def staged_b(j, to):
+        if listy:
+            x = _rnd2(b_in(j, uf), cs_e)
+            if to != uf:
+                x = _rnd2(_mul(x, SCALE[uf] / SCALE[to]), cs_e)
+            return x
+        return _rnd2(b_in(j, to), cs_e)
+    if form == "allclose":
+        ex = all(_x_close(va[j][0], b_in(j, ua)[0]) for j in range(2))
+        st = all(_x_close(va[j][0], staged_b(j, ua)[0]) for j in range(2))
+        e = elem_record(obs[0])
+        if kd == "b":
+            bv = bool(obs[0][0] != 0)
+            e.update(b=bv, mS=bv == ex, mP=bv == st)
+        return {"raise": False, "exc": "", "kind": kd, "size": sz, "py": py, "warnR": wr, "warnU": wu, "els": [e]}
+    try:
+        mid = np.result_type(np.dtype(da), np.dtype(want(de)))
+        cs_mid = mid.itemsize // 2 if mid.kind == "c" else mid.itemsize
+    except TypeError:
+        cs_mid = cs_r
+    if cs_mid not in FMT:
+        cs_mid = cs_r
+    for j, ob in enumerate(obs):
+        jj = min(j, 1)
+        e = elem_record(ob)
+        if form in ("ctor_list", "ctor_tuple", "ctor_arrays"):
+            ex, st = b_in(jj, uf), staged_b(jj, uf)
+        elif form == "ufunc_rlist":
+            pa, pb, sa, sb = va[jj], b_in(jj, ua), _rnd2(va[jj], cs_mid), staged_b(jj, ua)
+        elif form == "ufunc_llist":
+            f = SCALE[ua] / SCALE[uf]
+            pa, pb = b_in(jj, uf), _mul(va[jj], f)
+            sa = staged_b(jj, uf)
+            sb = _rnd2(_mul(va[jj], f), comp(da)) if ua != uf else _rnd2(va[jj], cs_mid)
+        elif form.startswith("setitem"):
+            if form == "setitem_q" and jj == 0:
+                ex = st = va[0]
+            else:
+                ex, st = b_in(jj, ua), staged_b(jj, ua)
+        elif form == "isclose":
+            pa, pb, sa, sb = va[jj], b_in(jj, ua), va[jj], staged_b(jj, ua)
+        if form in ("ufunc_rlist", "ufunc_llist"):
+            if op in ("add", "subtract", "maximum", "minimum"):
+                ex = _binop(op, pa, pb)
+                st = _rnd2(_binop(op, _rnd2(sa, cs_mid), sb), cs_mid)
+            else:
+                if kd == "b":
+                    bv = bool(ob[0] != 0)
+                    e.update(b=bv, mS=bv == _cmpop(op, pa, pb), mP=bv == _cmpop(op, _rnd2(sa, cs_mid), sb))
+                els.append(e)
+                continue
+        if form == "isclose":
+            if kd == "b":
+                bv = bool(ob[0] != 0)
+                e.update(b=bv, mS=bv == _x_close(pa[0], pb[0]), mP=bv == _x_close(sa[0], sb[0]))
+            els.append(e)
+            continue
+        if kd in "fc" and cs_r in FMT:
+            e["mS"] = match(ob, ex, cs_r, kd == "c")
+            e["mP"] = match(ob, st, cs_r, kd == "c")
+        elif kd in "iu":
+            e["mS"] = ob == ex
+            e["mP"] = ob == st and isinstance(st[0], Fraction) and st[0].denominator == 1
+        tr = (Fraction(math.floor(ex[0])), Fraction(math.trunc(ex[0]))) if isinstance(ex[0], Fraction) else ()
+        e["mT"] = bool(tr) and ex[0].denominator != 1 and ob[0] in tr
+        els.append(e)
+    return {"raise": False, "exc": "", "kind": kd, "size": sz, "py": py, "warnR": wr, "warnU": wu, "els": els}
+
+
 def observe(case):
     if case["fam"] == "conv":
         o = observe_conv(case)
+    elif case["fam"] == "comb":
+        o = observe_comb(case)
     else:
         o = observe_ufunc(case)
     return {"c": case, "o": o}
